@@ -1,6 +1,6 @@
 (* C16 — property theorems.  Only statements, [exact lemma] and Print Assumptions. *)
 From Coq Require Import ZArith List.
-From FV Require Import C16.Model C16.Proofs C16.Proofs2 C16.Proofs3 C16.Proofs4 C16.Proofs5.
+From FV Require Import C16.Model C16.Proofs C16.Proofs2 C16.Proofs3 C16.Proofs4 C16.Proofs5 C16.Proofs6.
 Import ListNotations.
 Open Scope Z_scope.
 
@@ -139,6 +139,22 @@ Theorem lig_insert_get : forall (A : Type) (cl : list (list (Z * A))) (cls : Z) 
       end.
 Proof. exact @lig_insert_get_lemma. Qed.
 
+(* the public ClassDefBuilder::checked_add: a rejected add leaves the builder unchanged (so it is invisible to every
+   later call), an accepted add appends the class unless it is already there, and accepted classes stay pairwise disjoint *)
+Theorem checked_add_reject_noop : forall classes cls,
+  cdb_can_add classes cls = false -> cdb_checked_add_ret classes cls = (false, classes).
+Proof. exact checked_add_reject_noop_lemma. Qed.
+Theorem checked_add_accept : forall classes cls,
+  cdb_can_add classes cls = true ->
+  cdb_checked_add_ret classes cls = (true, if existsb (set_eqb cls) classes then classes else classes ++ [cls]).
+Proof. exact checked_add_accept_lemma. Qed.
+Theorem checked_add_rejected_invisible : forall classes c1 c2,
+  cdb_can_add classes c1 = false -> cdb_checked_add_ret (cdb_checked_add classes c1) c2 = cdb_checked_add_ret classes c2.
+Proof. exact checked_add_rejected_invisible_lemma. Qed.
+Theorem checked_add_keeps_disjoint : forall classes cls,
+  pairwise_disjoint classes -> pairwise_disjoint (cdb_checked_add classes cls).
+Proof. exact checked_add_keeps_disjoint_lemma. Qed.
+
 Print Assumptions coverage_get_spec.
 Print Assumptions coverage_get_spec_chosen_format.
 Print Assumptions coverage_format_choice_irrelevant.
@@ -164,3 +180,7 @@ Print Assumptions class_subtable_values_come_from_covering_rules.
 Print Assumptions split_lookup_count.
 Print Assumptions split_all_preserves.
 Print Assumptions lig_insert_get.
+Print Assumptions checked_add_reject_noop.
+Print Assumptions checked_add_accept.
+Print Assumptions checked_add_rejected_invisible.
+Print Assumptions checked_add_keeps_disjoint.
